@@ -73,6 +73,12 @@ def cases(tier: str, seed: int) -> list[dict]:
             out.append({"kind": "elastic", "dim": dim, "et": pair, "law": gmat.KINDS[(k + r) % 4], "ps": bool(k % 2), "mesh": "mixed", "rho": "scalar"})
             out.append({"kind": "thermal", "dim": dim, "et": pair, "mesh": "mixed", "rho": "scalar"})
             k += 1
+        # thermal meshes that do not fill the space they live in (a plate tilted out of the xy-plane, a bar inclined in the plane or
+        # in space), with a model thickness different from 1: the thickness belongs to two-dimensional MESHES only
+        for et in ["TRI3", "QUAD8", "TRI10", "QUAD4"]:
+            out.append({"kind": "thermal", "dim": 2, "et": et, "mesh": "gmsh", "rho": "scalar", "embed": True})
+        for et in gm.ET_1D:
+            out.append({"kind": "thermal", "dim": 1, "et": et, "mesh": "line", "rho": "scalar", "embed": True})
         for et in gm.ET_1D:
             out.append({"kind": "thermal", "dim": 1, "et": et, "mesh": "line", "rho": rho_forms[(k + r) % 3]})
             k += 1
@@ -140,6 +146,15 @@ def run_case(case: dict, ctx: Ctx) -> None:
     ctx.default_key = key
     with ctx.monitored("no-exception", key + "/raised"):
         mesh, measure, info = _mesh_for(case, rng)
+    if case.get("embed"):
+        with ctx.monitored("no-exception", key + "/raised"):
+            with quiet():
+                ax = rng.normal(size=3)
+                if dim == 2:
+                    ax[2] = 0.0          # an axis of the plane: the plate leaves the plane
+                mesh.Rotate(float(rng.uniform(20, 70)), (0, 0, 0), tuple(ax / np.linalg.norm(ax)))
+        key = key + "/embedded"
+        ctx.default_key = key
     X = mesh.coord
     used = gm.used_nodes(mesh)
     groups = mesh.Get_list_groupElem(mesh.dim)
@@ -152,6 +167,8 @@ def run_case(case: dict, ctx: Ctx) -> None:
         form = "scalar"  # gmsh left several element types in the mesh; per-group densities are not expressible
         ctx.event("multi-group-mesh")
     rho0 = float(rng.uniform(0.5, 5))
+    if case["index"] % 3 == 0:
+        rho0 *= 1e-9      # another unit system (t / mm^3): densities of order 1e-9
     a = rng.uniform(-0.2, 0.2, 3) * rho0
     a[dim:] = 0
     xc = X[used].mean(0)
@@ -172,7 +189,7 @@ def run_case(case: dict, ctx: Ctx) -> None:
             # (general extruded quads are parallelograms only if organised; use the first-moment formula only when exact)
             total_rho = None
 
-    thickness = float(rng.uniform(0.4, 2.0)) if dim == 2 else 1.0
+    thickness = float(rng.uniform(0.4, 2.0)) if (dim == 2 or case.get("embed")) else 1.0
 
     if case["kind"] == "elastic":
         with ctx.monitored("no-exception", key + "/raised"):
@@ -199,7 +216,7 @@ def run_case(case: dict, ctx: Ctx) -> None:
         nrb = 1
         R = np.ones((mesh.Nn, 1))
         Mmat = C
-        mass_factor = cheat * thickness
+        mass_factor = cheat * (thickness if dim == 2 else 1.0)
 
     dofs = (used[:, None] * dof_n + np.arange(dof_n)).ravel()
     n = len(dofs)
@@ -241,6 +258,20 @@ def run_case(case: dict, ctx: Ctx) -> None:
             m = simu.mass
         if total_rho is not None:
             ctx.check("simu.mass", abs(m - total_rho * thickness) / (total_rho * thickness), 1e-8, key + "/simu.mass", got=m)
+    # ---- the density is assigned again on the same simulation: another material, or a value adjusted by a few 1e-6 -------------
+    if total_rho is not None:
+        for f in (float(rng.uniform(0.2, 0.6)), 1.0 + float(rng.uniform(2e-6, 9e-6))):
+            with ctx.monitored("no-exception", key + "/reassigned-density/raised"):
+                with quiet():
+                    simu.rho = rho * f
+                    M2 = simu.Get_K_C_M_F()[2 if case["kind"] == "elastic" else 1]
+            one = np.zeros(mesh.Nn * dof_n)
+            one[0::dof_n] = 1
+            tot = float(one @ (M2 @ one))
+            want = total_rho * f * mass_factor
+            ctx.check("M-total", abs(tot - want) / want, 1e-9, key + "/M-total@reassigned-density", got=tot, want=want, factor=f, rho0=rho0)
+            rho = rho * f
+            total_rho = total_rho * f
 
 
 def run_beam(case: dict, ctx: Ctx, rng) -> None:
